@@ -467,6 +467,7 @@ fn run_case(c: &Sexp, mask: u8) -> Sexp {
 
     'ops: for op in ops {
         let a = op.at(1).num();
+        ev(11, vec![]); // operation boundary
         match op.at(0).num() {
             0 => write_node(&hs, a as usize, op.at(2).num()),
             1 => notify_node(&hs, a as usize),
@@ -524,28 +525,10 @@ fn run_case(c: &Sexp, mask: u8) -> Sexp {
     Lst(filter(out, mask, c))
 }
 
-/// each sub-command observes what its property constrains
-fn filter(tr: Vec<Sexp>, mask: u8, c: &Sexp) -> Vec<Sexp> {
-    let prog = c.at(0).list();
-    let is_eff = |i: i64| i >= 0 && prog.get(i as usize).map(|n| n.at(0).num() == 3).unwrap_or(false);
-    tr.into_iter()
-        .filter(|e| {
-            let k = e.at(0).num();
-            match mask {
-                // C01: the values returned by reads (top-level and inside bodies)
-                1 => k == 0 || k == 2 || k == 9,
-                // C09: body invocations with the values they read and produced
-                9 => k == 1 || k == 2 || k == 3 || k == 5 || k == 6 || k == 9,
-                // C02: everything effects do, the polls, the idle points
-                2 => match k {
-                    1 | 3 | 5 | 6 => is_eff(e.at(1).num()),
-                    2 => is_eff(e.at(1).num()),
-                    _ => true,
-                },
-                _ => true,
-            }
-        })
-        .collect()
+/// every sub-command observes the full event trace (the three properties constrain
+/// different aspects of the same runs; their generators and oracles differ)
+fn filter(tr: Vec<Sexp>, _mask: u8, _c: &Sexp) -> Vec<Sexp> {
+    tr
 }
 
 // ------------------------------------------------------------------ driver with watchdog
